@@ -355,7 +355,8 @@ void IPv6::write_serialization(uint8_t* buffer, uint32_t total_sz) {
         }
     }
     else {
-        set_last_next_header(0);
+        // Nothing follows: 0 would announce a hop-by-hop options header
+        set_last_next_header(NO_NEXT_HEADER);
     }
     payload_length(static_cast<uint16_t>(total_sz - sizeof(header_)));
     stream.write(header_);
